@@ -156,9 +156,16 @@ theorem populateDirect_none_iff (c : Case) :
         simp only [Bool.not_true, Bool.false_eq_true, ↓reduceIte, this, true_and]
         exact populateCheck_none_iff c
 
+theorem only_iff (s : Suite) : only s.protos 1 = true ↔ OnlyConnect s := by
+  unfold only OnlyConnect
+  cases h : s.protos with
+  | nil => simp
+  | cons p ps => simp
+
 theorem misconfigured_iff (s : Suite) : misconfigured s = true ↔ Misconfigured s := by
   unfold misconfigured Misconfigured
-  cases s.certs <;> cases s.tls <;> cases s.get <;> cases s.onlyConnect <;> simp <;> omega
+  rw [← only_iff]
+  cases only s.protos 1 <;> cases s.certs <;> cases s.tls <;> cases s.get <;> simp <;> omega
 
 theorem admitted_iff (mode : Nat) (s : Suite) : admitted mode s = true ↔ Admitted mode s := by
   simp [admitted, Admitted]
